@@ -427,3 +427,34 @@ def c15b_check(scn):
     if d:
         return {"clause": "readings-differ", "observed": d, "expected": "readings of the untrimmed run"}
     return None
+
+
+RECURSIVE_KINDS = ["EMA", "RMA", "OBV", "VWAP", "ATR", "RSI", "MACD", "KC", "SUPERTREND", "TSI", "ADX", "COUNTER", "HLA", "TR"]
+
+
+def c15b_case(rng, idx, params):
+    """purely recursive indicators: once seeded, one predecessor inside the surviving window is all a new
+    reading needs.  The stream is dense first (the window holds the whole warm-up, so the trimmed run seeds
+    exactly like the untrimmed one) and then 8x sparser (the window shrinks to a few candles)."""
+    spec = specs.gen_spec(rng, RECURSIVE_KINDS, max_period=12)
+    biggest = max([v for k, v in spec.items() if k in ("period", "fast", "slow", "signal", "smooth") and isinstance(v, int)] or [1])
+    warm = 4 * biggest + 6
+    n = 2 * (warm + rng.randint(4, 20))
+    step = rng.choice([1, 10, 60, 300])
+    stream, meta = gen.gen_stream(rng, n, ts_style="phase", step=step)
+    k = max(warm + 2, 17)
+    life = k * step + rng.randint(0, step - 1)
+    spec = dict(spec, life=life)
+    scn = {"spec": spec, "stream": stream, "init": 0, "chunks": [1] * n}
+    bad = c15b_check(scn)
+    viol = None
+    if bad:
+        viol = {"scenario": scn, **bad, "signature": f"C15:{kind_of(spec)}:{bad['clause']}"}
+    meta.update({"kind": kind_of(spec), "window_sparse": k // 8})
+    return {"nontrivial": True, "key": hash(str(scn)), "violation": viol, "meta": meta,
+            "sample": {"spec": spec, "n": n, "life": life} if idx < 2 else None}
+
+
+def c15b_replay(w):
+    bad = c15b_check(w["scenario"])
+    return {"fails": bad is not None, "detail": bad}
